@@ -177,7 +177,8 @@ SCOPE = {
 	 "OnionPacket",
 	 "TrampolineOnionPacket",
 	 "OnionErrorPacket",
-	 "DecodedOnionFailure"
+	 "DecodedOnionFailure",
+	 "NextPacketDetails"
 	],
 	"C15": [
 	 "NoiseState",
@@ -1136,7 +1137,8 @@ def flags_for_property(F, pid, rule_id):
 # which parses and handles untrusted bytes does not GAIN a panic site: per function, the number of unwrap / expect calls, explicit panics,
 # bounds-checked index operations (Index::index on slices / Vec / maps, copy_from_slice, split_at) and the compiler's own bounds /
 # division-by-zero assertions must not exceed the reviewed count of the same build profile (rules/provenance_panics.json; debug assertions and
-# overflow checks exist in the dev profile only); `lock().unwrap()` is not counted.  New functions are not judged, losing a site is fine.
+# overflow checks exist in the dev profile only); `lock().unwrap()` is not counted.  New functions are not judged, losing a site is fine, and
+# one kind replacing another (two range indexings for one split_at) is fine as long as the function's total does not grow.
 _PNC = {}
 _PN_TABLE = None
 _PN_CALLS = {
@@ -1217,6 +1219,12 @@ def pn_rule(F, rule_id, file_res, floor=1):
 		if tail not in tknown.get(fl, ()):
 			continue
 		if c > tcount.get(k, 0):
+			# `&d[..n]` + `&d[n..]` written as `d.split_at(n)`, an index written as `get(..).unwrap()`: one kind of abort for another at the same place.
+			# Judged is the number of potential panic sites of the function over all kinds, which must not grow.
+			tot_now = sum(c2 for (fl2, t2, k2), c2 in cnt.items() if fl2 == fl and t2 == tail)
+			tot_rev = sum(c2 for (fl2, t2, k2), c2 in tcount.items() if fl2 == fl and t2 == tail)
+			if tot_now <= tot_rev:
+				continue
 			fn, line = where[k]
 			out.append(Result(rule_id, False, 'panic-site:%s:%s' % (tail, kind), '%s now has %d `%s` panic site(s) (reviewed: %d): code that handles untrusted input gained an operation that aborts the node when its operand is out of range / absent' % (tail, c, kind, tcount.get(k, 0)), 1, where=F.where(fn, line)))
 	if n < floor:
